@@ -415,7 +415,8 @@ theorem write_request_wire (seq v t : Nat) (hs : seq < 16) (hv : v = 1 ∨ v = 3
       .request ⟨true, true, false, false, seq⟩ 2 (.ok [⟨50, v, 0x07, 1, 0, Master.le48 t⟩])
         ([0x32, v, 0x07, 0x01] ++ Master.le48 t) := by
   rcases hv with rfl | rfl <;>
-    simp [parseRequest, Master.requestBytes, request_ctrl seq hs, knownFunction, Master.le48, parseObjects, varInfo]
+    simp [parseRequest, Master.requestBytes, request_ctrl seq hs, knownFunction, Master.le48, parseObjects, varInfo,
+      isStaticGroup, isEventGroup]
 
 /-- … and the requests without objects -/
 theorem empty_request_wire (seq f : Nat) (hs : seq < 16) (hf : f = 23 ∨ f = 24) :
